@@ -152,5 +152,6 @@ func init() {
 			econst.CheckAll(run, c.Prog(id), "CONST")
 		}
 		arithmeticFoundations(c)
+		ownershipRules(c) // results never alias an object's interior, a constant, or a caller's buffer: a point handed out cannot desynchronise a table
 	}
 }
